@@ -125,11 +125,12 @@ GEN_TIES = {
     },
     "motion": {
         "props": {"C01", "C02", "C03", "C05", "C06", "C07", "C11", "C20"},
-        "gen": "gen_motion.py", "gen_file": "GscribModel/Gen/MotionSrc.lean", "tie": "MotionTie",
+        "gen": "gen_motion.py", "gen_file": "GscribModel/Gen/MotionSrc.lean",
         "gens": [("gen_code_table.py", "GscribModel/Gen/CodeTable.lean"), ("gen_state.py", "GscribModel/Gen/StateSrc.lean"),
                  ("gen_point.py", "GscribModel/Gen/PointSrc.lean"), ("gen_builder.py", "GscribModel/Gen/BuilderSrc.lean"),
                  ("gen_motion.py", "GscribModel/Gen/MotionSrc.lean")],
-        "ties": ["Tables", "StateTie", "PointTie", "BuilderTie", "MotionTie"],
+        "ties": ["Tables", "StateTie", "PointTie", "BuilderTie", "MotionTie", "SourceTie"],
+        "audit": ["MotionTie", "SourceTie"], "tie": "SourceTie",
         "what": "the builder model's motion commands no longer equal the GCodeBuilder/GCodeCore methods translated from "
                 "gscrib/gcode_builder.py and gscrib/gcode_core.py",
     },
@@ -232,10 +233,12 @@ def check_generated_tie(key: str) -> dict:
     t = GEN_TIES[key]
     gens = t.get("gens") or [(t["gen"], t["gen_file"])]
     ties = t.get("ties") or [t["tie"]]          # tie modules to (re)compile, in dependency order; the last one is audited
-    tie_src = LEAN / "GscribModel" / "Props" / f"{t['tie']}.lean"
-    names = [n for n in re.findall(r"^theorem\s+([A-Za-z_][\w.']*)", _strip_lean_comments(tie_src.read_text()), re.M)
-             if n.startswith(t["tie"] + "_")]          # the tie theorems proper (helper lemmas live in a namespace)
-    forbidden = [f"{tie_src.name}: {m.group(0).strip()}" for m in FORBIDDEN.finditer(_strip_lean_comments(tie_src.read_text()))]
+    names, forbidden = [], []
+    for mod in t.get("audit") or [t["tie"]]:      # the tie theorems proper, `<Module>_*` (helper lemmas live in a namespace)
+        tie_src = LEAN / "GscribModel" / "Props" / f"{mod}.lean"
+        names += [n for n in re.findall(r"^theorem\s+([A-Za-z_][\w.']*)", _strip_lean_comments(tie_src.read_text()), re.M)
+                  if n.startswith(mod + "_")]
+        forbidden += [f"{tie_src.name}: {m.group(0).strip()}" for m in FORBIDDEN.finditer(_strip_lean_comments(tie_src.read_text()))]
     texts, same = [], os.environ.get("VERIF_FORCE_PRIVATE_TIE") != "1"
     for script, gen_file in gens:
         g = subprocess.run([sys.executable, str(VERIF / "tools" / script), str(REPO), "--stdout"], capture_output=True, text=True)
